@@ -32,6 +32,7 @@ type histCfg struct {
 	idTok       bool
 	autoLogin   bool
 	tokenDur    time.Duration
+	noRT        bool // the provider issues no refresh token
 }
 
 func (h histCfg) modeNum() int {
@@ -57,6 +58,12 @@ func histConfigs(c *ctx) []histCfg {
 					out = append(out, histCfg{mode: m.m, forwardAuth: m.fwd, inactivity: inact, maxLifetime: time.Hour, acr: acr, tokenDur: td})
 				}
 			}
+		}
+	}
+	// providers that issue NO refresh token: such sessions can never be refreshed, yet every lifetime / inactivity / expiry rule applies to them
+	for _, m := range modes {
+		for _, inact := range []time.Duration{0, 4 * time.Minute} {
+			out = append(out, histCfg{mode: m.m, forwardAuth: m.fwd, inactivity: inact, maxLifetime: time.Hour, tokenDur: 10 * time.Minute, noRT: true})
 		}
 	}
 	// flags that do not interact with the time logic are spread pseudo-randomly
@@ -132,6 +139,7 @@ func runOneHistory(c *ctx, hc histCfg, hid, nSteps int) {
 		h.main = h.s.replicaMode("P", "sso-proxy")
 		h.base, h.sb = "http://app.example.com", "http://sso.example.com"
 	}
+	h.s.idp.omitRefreshToken = hc.noRT
 	defer func() {
 		h.s.close()
 		cookie.ConfigureCookieNamesWithPrefix(cookie.DefaultPrefix)
